@@ -89,13 +89,24 @@ EncFrom(cur, rows, i) ==
 \* the encoded table: a sequence of packed words
 Encode(start, rows) == LET ws == EncFrom(start, rows, 1) IN [i \in 1..Len(ws) |-> Pack(ws[i])]
 
-\* decoding accumulates the deltas and emits a row at every complete word
-RECURSIVE DecFrom(_, _, _, _)
-DecFrom(cur, xs, i, acc) ==
-  IF i > Len(xs) THEN acc
-  ELSE LET w == Unpack(xs[i]) nxt == Apply(cur, w) IN
-       DecFrom(nxt, xs, i + 1, IF w.more = 0 THEN Append(acc, nxt) ELSE acc)
-Decode(start, xs) == DecFrom(start, xs, 1, <<>>)
+\* Decoding accumulates the deltas and emits a row at every complete word: the k-th row is the start
+\* position plus the sum of the deltas of all words up to and including the k-th complete word.
+\* (The sums are written as balanced recursions: TLC evaluates them in logarithmic stack depth.)
+ZeroD == [dpc |-> 0, dl |-> 0, dc |-> 0]
+RECURSIVE DSum(_, _, _)
+DSum(xs, lo, hi) ==          \* componentwise sum of the deltas of the words xs[lo..hi]
+  IF lo > hi THEN ZeroD
+  ELSE IF lo = hi THEN LET w == Unpack(xs[lo]) IN [dpc |-> w.dpc, dl |-> w.dl, dc |-> w.dc]
+  ELSE LET mid == (lo + hi) \div 2 x == DSum(xs, lo, mid) y == DSum(xs, mid + 1, hi) IN
+       [dpc |-> x.dpc + y.dpc, dl |-> x.dl + y.dl, dc |-> x.dc + y.dc]
+CompleteAt(xs) == SelectSeq([i \in 1..Len(xs) |-> i], LAMBDA i : Unpack(xs[i]).more = 0)
+RECURSIVE DecRows(_, _, _, _, _)
+DecRows(cur, xs, ends, k, acc) ==
+  IF k > Len(ends) THEN acc
+  ELSE LET d == DSum(xs, (IF k = 1 THEN 1 ELSE ends[k - 1] + 1), ends[k])
+           nxt == Row(cur.pc + d.dpc, cur.line + d.dl, cur.col + d.dc)
+       IN DecRows(nxt, xs, ends, k + 1, Append(acc, nxt))
+Decode(start, xs) == DecRows(start, xs, CompleteAt(xs), 1, <<>>)
 
 \* ------------------------------------------------------------------ lookup
 \* index of the last row whose pc is not greater than pc (0 if there is none)
